@@ -258,7 +258,12 @@ static void case_binomial(Rng& rng, uint64_t index)
 		ld ref	 = T[n][k];
 		double L = (double) logl(ref);
 		require("binomial-integer-valued", std::isfinite(v) && std::floor(v) == v && v >= 1, [&] { return J().i("n", n).i("k", k).d("C", v); });
+		// n<=170: ratio of tabulated factorials, a few ulp.  n>170: exp(lnG(n+1)-lnG(k+1)-lnG(n-k+1)); the GammaLn clause allows each
+		// logarithm 64*eps*|lnG|, which is an absolute error of the exponent, so the propagated relative tolerance of the value is
+		// 64*eps*(sum of the three |lnG|) -- the same "few ulp of the logarithm" scale as the Gamma clause (DESIGN 5.4).
 		double tol = 64 * EPS * (1 + L);
+		if(n > 170)
+			tol = 64 * EPS * (1 + std::lgamma(n + 1.0) + std::lgamma(k + 1.0) + std::lgamma(n - k + 1.0));
 		judge("binomial-vs-pascal-triangle", (double) (fabsl((ld) v - ref) / ref), tol, [&] { return J().i("n", n).i("k", k).d("C", v).d("ref", (double) ref); });
 		// small values (below 2^40 the rounding of n!/k!/(n-k)! stays far below 1/2): the exact integer, hence exactly symmetric;
 		// larger values: symmetric to the same few ulp as the value itself
